@@ -249,6 +249,9 @@ static int c3_call_and_judge(int mode, fx_t *F, const sweep_t *s,
 
     int do_state = mode == MODE_C11 && !(fn->fl & FL_MUTOK) &&
 	fn->rk != RK_NONE;
+    for (int d = 0; d < ndev; ++d)
+	if (dev[d].em & EM_LATE)
+	    do_state = 0;	/* not a refusal for its arguments */
     if (do_state)
 	fx_digest(F, &c3_D0, 1);
     vf_errlog_reset(&F->elog);
